@@ -5971,14 +5971,17 @@ class CodegenCtx:
         
         # Once the accepting state has been reached the parse is complete: input that could only be
         # handled as an error there means "nothing more to match", which is DONE rather than a failure.
-        live_transitions = state.transitions
-        if state in self.dfa.accepting_states:
-            live_transitions = [x for x in state.transitions if not x.error_handling]
-            if actual_else_transition is not None and actual_else_transition.error_handling:
-                actual_else_transition = None
+        # (The tests of error-handling transitions stay, so that they still shadow the else transition.)
+        def body_for(transition):
+            if state in self.dfa.accepting_states and transition.error_handling:
+                done = Outputter()
+                done.add("// the parse is already complete")
+                done.add(f"return {self.program_name.upper()}_DONE;")
+                return done.value()
+            return self._generate_transition_body(transition)
 
         # Create all transition if cases
-        for j, transition in enumerate((x for x in live_transitions if x != actual_else_transition)):
+        for j, transition in enumerate((x for x in state.transitions if x != actual_else_transition)):
             cond_name = "else if"
             conditions = self._generate_condition_for_transition(transition)
             if not conditions:
@@ -5988,14 +5991,14 @@ class CodegenCtx:
                 cond_name = "if"
             result.add(f"{cond_name} ({conditions}) {{")
             with result as transition_body:
-                transition_body += self._generate_transition_body(transition)
+                transition_body += body_for(transition)
             result.add("}")
 
         if actual_else_transition:
             if generated_if:
                 result.add("else {")
             with result as transition_body:
-                transition_body += self._generate_transition_body(actual_else_transition)
+                transition_body += body_for(actual_else_transition)
             if generated_if:
                 result.add("}")
         if state in self.dfa.accepting_states:
